@@ -2,7 +2,8 @@
   C18 — property theorems (PCM byte codecs are exact: chunk packing and WAV sample decoding).
   Only statements of the property, non-vacuity examples and the audit live here; helper lemmas
   are in `ALV.Lemmas.C18` (codecs), `C18Chunks` (both chunk strategies refine the spec),
-  `C18Wav` (reader chain, laziness), `C18Round` (round trip), `C18Norm` (range, Mathlib order).
+  `C18Wav` (reader chain, laziness), `C18Round` (round trip), `C18Norm` (range, Mathlib order),
+  `C18Src` (the definitions regenerated from the source by `harness/props/c18_tr.py` are the model).
 
   Quantifiers: every width `w ≥ 1`, both byte orders, every machine order, every chunk size ≥ 1,
   every sequence length, every item type / element encoder (so b h i f d alike), every sample
